@@ -178,7 +178,10 @@ def main(argv):
         props = argv[k + 1].split(",") if len(argv) > k + 1 and argv[k + 1].startswith("C") else ["C02", "C12", "C13", "C14"]
         jobs = []
         base = os.path.join(VERIF, "benign")
+        only = os.environ.get("BENIGN_ONLY", "").split(",") if os.environ.get("BENIGN_ONLY") else None
         for name in sorted(os.listdir(base)) if os.path.isdir(base) else []:
+            if only and name not in only:
+                continue
             for f in sorted(os.listdir(os.path.join(base, name))):
                 if f.endswith(".diff"):
                     for p in props:
